@@ -63,6 +63,8 @@ def _strategy():
             case['method'] = ['PUT', 'PATCH', 'DELETE', 'GET', 'HEAD', 'OPTIONS', 'TRACE', 'REPORT', 'post'][delta % 9]
         if case['via'] == 'wsgi' and delta % 7 == 0:
             case['earlier'] = ['close', 'write', 'read'][delta % 3]
+        if case['via'] == 'wsgi' and delta % 11 == 0:
+            case['second_object'] = ['copy', 'request'][delta % 2]
         if reassign and case['via'] == 'wsgi' and maxb is None:
             case['reassign'] = reassign
             case['first_read'] = first_read
@@ -132,6 +134,10 @@ def _read_wsgi(case, stream):
             rq['QUERY_STRING'] = 'changed=1'
         b2 = rq.body.read()          # "rewound on every access"
         seen['b1'], seen['b2'] = b1, b2
+        if case.get('second_object'):
+            # a second request object over the same environ (a hook, a nested component, copy()): it presents the same body, whatever the first one has read
+            r2 = rq.copy() if case['second_object'] == 'copy' else ombott.Request(rq.environ)
+            seen['b3'] = r2.body.read()
         seen['spilled'] = type(rq.body).__name__ != 'BytesIO'
         return b1
 
@@ -152,6 +158,8 @@ def _read_wsgi(case, stream):
         raise CheckFailure(f'status {r.status!r} for a plain Content-Length body; errors: {r.errors[-600:]}')
     if seen.get('b1') != seen.get('b2'):
         raise CheckFailure(f'second access to request.body differs: {seen.get("b1")!r} vs {seen.get("b2")!r}')
+    if case.get('second_object') and seen.get('b3') != seen.get('b1'):
+        raise CheckFailure(f'a second request object over the same environ ({case["second_object"]}) presents {len(seen.get("b3") or b"")} body bytes, the first one {len(seen.get("b1") or b"")}')
     if r.body != seen.get('b1') and (case.get('method') or 'POST') != 'HEAD':
         raise CheckFailure('echoed body differs from what the handler read')
     return seen['b1'], seen['spilled']
@@ -394,6 +402,13 @@ def run(ctx):
                         ctx.guarded(check_case, {'data': bytes(65 + i % 26 for i in range(n_)) + b'##', 'cl': n_, 'buf': buf, 'pattern': [7], 'via': 'wsgi', 'ctype': None, 'method': method,
                                                  'earlier': earlier})
         ctx.count('method_and_earlier_request_grid')
+        for so in ('copy', 'request'):
+            for n_ in (0, 1, 40, 3000):
+                for buf in (8, 102400):
+                    for first in (None, 0, 7, 100):
+                        ctx.guarded(check_case, {'data': bytes(65 + i % 26 for i in range(n_)) + b'##', 'cl': n_, 'buf': buf, 'pattern': [9], 'via': 'wsgi', 'ctype': None, 'second_object': so,
+                                                 'first_read': first})
+        ctx.count('second_request_object_grid')
         for kind in ('rawio', 'frag'):
             for n_ in (5, 40, 2048):
                 ctx.guarded(check_threaded, {'threaded': True, 'stream': kind, 'n': n_, 'buf': 16 if n_ < 100 else 1024})
